@@ -114,6 +114,8 @@ type gen struct {
 	inTypeInv   bool
 	localCell   map[string]string
 	fieldRefs   map[string]*fieldAccess
+	immMaps     map[string]bool
+	finalVals   map[*ssa.FreeVar]Val
 	known       map[string]Finding
 	canaryDone  bool
 	lockSiteOrd map[interface{}]int
@@ -789,8 +791,35 @@ func (g *gen) havocHeap(n *node, st *State) {
 				continue
 			}
 		}
-		g.svFresh(st, name, g.allVars[name])
+		srt := g.allVars[name]
+		old := g.svGet(st, name, srt)
+		nv := g.svFresh(st, name, srt)
+		if n != nil && g.immutableMap(name) {
+			// fields declared immutable are never written after construction (checked at every store
+			// in verified code): calls with arbitrary heap effects keep them on existing objects
+			nx := g.svGet(st, "$nxt", "Int")
+			n.assume(fmt.Sprintf("(forall ((r Ref)) (! (=> (< (rootid r) %s) (= (select %s r) (select %s r))) :pattern ((select %s r))))", nx, nv, old, nv))
+		}
 	}
+}
+
+// immutableMap: the state variable is the field map of a field declared immutable.
+func (g *gen) immutableMap(name string) bool {
+	if g.immMaps == nil {
+		g.immMaps = map[string]bool{}
+		for k := range g.P.spec.Immutable {
+			// k = pkgpath.T.f ; field map name = H.<pkgname>.<T>.<f>
+			i := strings.LastIndex(k, ".")
+			j := strings.LastIndex(k[:i], ".")
+			pkgPath, tn, fn := k[:j], k[j+1:i], k[i+1:]
+			if tp := g.P.tpkgs[pkgPath]; tp != nil {
+				if obj, ok := tp.Scope().Lookup(tn).(*types.TypeName); ok {
+					g.immMaps[fieldMapName(obj.Type(), fn)] = true
+				}
+			}
+		}
+	}
+	return g.immMaps[name]
 }
 
 // ---- emission ----
@@ -872,6 +901,116 @@ func (g *gen) emitFull(strMode bool, stripQ bool, noAssume map[int]bool) string 
 	return sb.String()
 }
 
+// emitTarget builds the query for one obligation, sliced to the part of the graph that can reach
+// it: nodes that cannot reach the target and everything after the target are dropped; every
+// other (real) assertion on the way is an assumption.
+func (g *gen) emitTarget(strMode bool, stripQ bool, noAssume map[int]bool, target int) string {
+	var tn *node
+	ti := -1
+	for _, n := range g.nodes {
+		for i, c := range n.cmds {
+			if c.obl != nil && c.obl.idx == target {
+				tn, ti = n, i
+			}
+		}
+	}
+	if tn == nil {
+		return g.queryFor(g.emitFull(strMode, stripQ, noAssume), target)
+	}
+	// backward reachability
+	preds := map[*node][]*node{}
+	for _, n := range g.nodes {
+		for _, e := range n.succs {
+			preds[e.to] = append(preds[e.to], n)
+		}
+	}
+	reach := map[*node]bool{tn: true}
+	stack := []*node{tn}
+	for len(stack) > 0 {
+		x := stack[len(stack)-1]
+		stack = stack[:len(stack)-1]
+		for _, p := range preds[x] {
+			if !reach[p] {
+				reach[p] = true
+				stack = append(stack, p)
+			}
+		}
+	}
+	var sb strings.Builder
+	sb.WriteString("(set-option :produce-models true)\n(set-logic ALL)\n")
+	sb.WriteString(preludeCommon)
+	if strMode {
+		sb.WriteString(preludeStrTheory)
+		sb.WriteString("(define-fun strcat ((a Str) (b Str)) Str (str.++ a b))\n")
+	} else {
+		sb.WriteString(preludeStrAbstract)
+		sb.WriteString("(declare-fun strcat (Str Str) Str)\n")
+	}
+	for _, d := range g.c.decls {
+		sb.WriteString(d)
+		sb.WriteByte('\n')
+	}
+	sb.WriteString(g.c.literalAxioms())
+	for _, a := range g.globalAx {
+		if stripQ && hasQuant(a) {
+			continue
+		}
+		sb.WriteString("(assert " + a + ")\n")
+	}
+	seen := map[*node]bool{}
+	var order []*node
+	var dfs func(n *node)
+	dfs = func(n *node) {
+		seen[n] = true
+		for _, e := range n.succs {
+			if !seen[e.to] && reach[e.to] {
+				dfs(e.to)
+			}
+		}
+		order = append(order, n)
+	}
+	if !reach[g.entry] {
+		// unreachable target: trivially discharged
+		sb.WriteString("(assert false)\n(check-sat)\n")
+		return sb.String()
+	}
+	dfs(g.entry)
+	for _, n := range order {
+		rest := "true"
+		last := len(n.cmds) - 1
+		if n == tn {
+			last = ti
+		} else {
+			var succ []string
+			for _, e := range n.succs {
+				if reach[e.to] {
+					succ = append(succ, implies(and(e.conds...), fmt.Sprintf("ok%d", e.to.id)))
+				}
+			}
+			rest = and(succ...)
+		}
+		for i := last; i >= 0; i-- {
+			c := n.cmds[i]
+			switch {
+			case c.obl == nil:
+				if stripQ && hasQuant(c.t) {
+					continue
+				}
+				rest = implies(c.t, rest)
+			case n == tn && i == ti:
+				rest = c.t
+			case c.obl.Kind == "smoke" || c.obl.Kind == "canary" || c.obl.Kind == "finding" || noAssume[c.obl.idx]:
+			case stripQ && hasQuant(c.t):
+			default:
+				rest = implies(c.t, rest)
+			}
+		}
+		sb.WriteString(fmt.Sprintf("(define-fun ok%d () Bool %s)\n", n.id, rest))
+	}
+	sb.WriteString(fmt.Sprintf("(assert (not ok%d))\n(check-sat)\n(get-model)\n", g.entry.id))
+	return sb.String()
+}
+
 // query text for one obligation (or for the smoke test when idx < 0)
 func (g *gen) queryFor(base string, idx int) string {
 	var sb strings.Builder
@@ -896,6 +1035,7 @@ func (g *gen) counter(k string) int {
 }
 
 func namedStructKey(t types.Type) (string, bool) {
+	t = types.Unalias(t)
 	if nt, ok := t.(*types.Named); ok && nt.Obj().Pkg() != nil {
 		return nt.Obj().Pkg().Path() + "." + nt.Obj().Name(), true
 	}
